@@ -251,24 +251,28 @@ theorem state_total_eta (s : State) (t : Int) (ht : t = s.total) : { s with tota
   subst ht; rfl
 
 /-- the four outcomes of `getAvailableClient` / `GetActiveClient` -/
-theorem acquire_cases (s : State) (f : Bool) :
-    acquire s f = (s, .overflow) ∨ acquire s f = (s, .connFail) ∨
+theorem acquire_cases (s : State) (f : Dial) :
+    acquire s f = (s, .overflow) ∨ acquire s f = (s, .connFail f.isTimeout) ∨
     acquire s f = (withNewClient s, .ok s.nClients) ∨
     ∃ rest c, s.idle = rest ++ [c] ∧ acquire s f = ({ s with idle := rest }, .ok c) := by
   obtain ⟨kind, maxConn, maxReq, total, idle, nClients, client, nStreams, stream, reqCur, ext⟩ := s
-  have hd1 : total + h1NewDelta + h1ConnFailDelta = total := by simp only [h1NewDelta, h1ConnFailDelta]; omega
+  -- the slot taken for the new connection is given back by EVERY failed dial (refused and timed out)
+  have hd1 : ∀ t, total + h1NewDelta + h1DialFailDelta t = total := by
+    intro t; cases t <;> simp only [h1NewDelta, h1DialFailDelta] <;> simp <;> omega
+  have hd3 : ∀ t, total + ppDialFailDelta t = total := by
+    intro t; cases t <;> simp only [ppDialFailDelta] <;> simp
   have hd2 : total + h1NewDelta + h1OverflowDelta = total := by simp only [h1NewDelta, h1OverflowDelta]; omega
   rcases List.eq_nil_or_concat idle with hnil | ⟨rest, c, hcons⟩
   · subst hnil
-    cases kind <;> cases f <;> simp only [acquire, List.isEmpty_nil, if_true, withNewClient] <;> split <;>
-      simp [hd1, hd2, ppNewDelta] <;> simp [h1NewDelta]
+    cases kind <;> cases f <;> simp only [acquire, List.isEmpty_nil, if_true, withNewClient, Dial.fails, Dial.isTimeout] <;> split <;>
+      simp [hd1, hd2, hd3, ppNewDelta] <;> simp [h1NewDelta]
   · rw [List.concat_eq_append] at hcons
     subst hcons
     have hne : (rest ++ [c]).isEmpty = false := by simp
     cases kind <;> simp only [acquire, hne, Bool.false_eq_true, if_false] <;> split <;> simp
 
-theorem newStream_cases (s : State) (f : Bool) :
-    (newStream s f = (s, .overflow)) ∨ (newStream s f = (s, .connFail)) ∨
+theorem newStream_cases (s : State) (f : Dial) :
+    (newStream s f = (s, .overflow)) ∨ (newStream s f = (s, .connFail f.isTimeout)) ∨
     (newStream s f = (lease (withNewClient s) s.nClients, .ok s.nClients)) ∨
     ∃ rest c, s.idle = rest ++ [c] ∧ newStream s f = (lease { s with idle := rest } c, .ok c) := by
   unfold newStream
@@ -282,7 +286,7 @@ theorem newStream_cases (s : State) (f : Bool) :
     · right; right; right; exact ⟨rest, c, h1, by rw [h2]⟩
   · left; rfl
 
-theorem inv_newStream (s : State) (h : Inv s) (f : Bool) : Inv (newStream s f).1 := by
+theorem inv_newStream (s : State) (h : Inv s) (f : Dial) : Inv (newStream s f).1 := by
   rcases newStream_cases s f with e | e | e | ⟨rest, c, h1, e⟩ <;> rw [e]
   · exact h
   · exact h
